@@ -49,7 +49,7 @@ def write_parameters(d, names, columns, order=None, pad=30, gz=False):
 
 
 def write_convolved(d, filter_name, names, flux, err, apertures_au=None, filtwav_micron=1.0, unit='mJy',
-                    ap_unit='AU', float32=False, flat_single=True):
+                    ap_unit='AU', float32=False, flat_single=True, gz=False):
     """flux, err: (n_models, n_ap).  apertures_au None => no APERTURES HDU (n_ap must be 1)."""
     os.makedirs(os.path.join(d, 'convolved'), exist_ok=True)
     flux = np.asarray(flux, float)
@@ -72,13 +72,13 @@ def write_convolved(d, filter_name, names, flux, err, apertures_au=None, filtwav
     if apertures_au is not None:
         acol = fits.Column(name='APERTURE', format=fmt, array=np.asarray(apertures_au, float), unit=ap_unit)
         hdus.append(fits.BinTableHDU.from_columns([acol], name='APERTURES'))
-    path = os.path.join(d, 'convolved', filter_name + '.fits')
+    path = os.path.join(d, 'convolved', filter_name + '.fits' + ('.gz' if gz else ''))
     fits.HDUList(hdus).writeto(path, overwrite=True)
     return path
 
 
 def write_sed_file(d, name, wav_micron, flux, err, apertures_au=None, unit='mJy', distance_cm=KPC_CM,
-                   wav_unit='um', ap_unit='AU', subdir=None, float32=False, filename=None):
+                   wav_unit='um', ap_unit='AU', subdir=None, float32=False, filename=None, gz=False):
     """One per-model SED file (seds/<name>_sed.fits).  wav_micron in any order;
     flux/err: (n_ap, n_wav) aligned with wav_micron as given."""
     sd = os.path.join(d, 'seds') if subdir is None else os.path.join(d, 'seds', subdir)
@@ -112,7 +112,7 @@ def write_sed_file(d, name, wav_micron, flux, err, apertures_au=None, unit='mJy'
     hdu3 = fits.BinTableHDU.from_columns([
         fits.Column(name='TOTAL_FLUX', format='%d%s' % (n_wav, fmt), array=flux, unit=unit),
         fits.Column(name='TOTAL_FLUX_ERR', format='%d%s' % (n_wav, fmt), array=err, unit=unit)], name='SEDS')
-    path = os.path.join(sd, filename or (str(name) + '_sed.fits'))
+    path = os.path.join(sd, (filename or (str(name) + '_sed.fits')) + ('.gz' if gz else ''))
     fits.HDUList([hdu0, hdu1, hdu2, hdu3]).writeto(path, overwrite=True)
     return path
 
